@@ -3,6 +3,9 @@ use crate::{ErrorKind, FormatReport};
 use annotate_snippets::{Annotation, Level, Renderer, Snippet};
 use std::fmt::{self, Display};
 
+/// Wider than any line rustfmt can report (see the `term_width` call below).
+const MAX_REPORTED_LINE_WIDTH: usize = 1 << 24;
+
 /// A builder for [`FormatReportFormatter`].
 pub struct FormatReportFormatterBuilder<'a> {
     report: &'a FormatReport,
@@ -53,6 +56,10 @@ impl<'a> Display for FormatReportFormatter<'a> {
         } else {
             Renderer::plain()
         };
+        // Never let the renderer cut the reported line to the terminal width: when it does, it
+        // slices the text at a byte offset derived from display widths and panics on a
+        // multi-byte character.
+        let renderer = renderer.term_width(MAX_REPORTED_LINE_WIDTH);
 
         for (file, errors) in errors_by_file {
             for error in errors {
